@@ -318,6 +318,21 @@ func genC20(t *rapid.T, tier Tier) C20Case {
 		for i := 0; i < w && budget > 0; i++ {
 			n.Elems = append(n.Elems, genElem(depth))
 		}
+		if rapid.IntRange(0, 9).Draw(t, "uncomparable?") == 0 {
+			// one or two adjacent leaves of an uncomparable Go type (same type when two)
+			leafN++
+			u := genUncomparable(t, leafN)
+			at := rapid.IntRange(0, len(n.Elems)).Draw(t, "uncat")
+			ins := []Node{LeafN(u)}
+			if rapid.Bool().Draw(t, "unc-pair") {
+				leafN++
+				u2 := u
+				u2.Elems = append([]Val{}, u.Elems...)
+				ins = append(ins, LeafN(u2))
+			}
+			n.Elems = append(n.Elems[:at:at], append(ins, n.Elems[at:]...)...)
+		}
+		n.NoNest = rapid.IntRange(0, 5).Draw(t, "nonest-after") == 0
 		return n
 	}
 	root := genStack(0)
